@@ -29,9 +29,11 @@ def evaluate(prop, facts, tier):
         from . import structure
         files = anchor_files(prop)
         if files:
-            n = structure.check(ctx, files)
+            rel = relevant_functions(prop, facts)
+            ctx.notes.append("generic rules T10-T13 applied to %d functions reachable from the property's mechanism within its anchor files" % len(rel))
+            n = structure.check(ctx, files, relevant=rel)
             ctx.clauses.append("frozen loop structure of the anchor files %s: every continuing iteration reaches the reference calls, no new early exit, no new carried state (T10, %d loops)" % (sorted(files), n))
-            n2 = structure.check_ranges(ctx, files)
+            n2 = structure.check_ranges(ctx, files, relevant=rel)
             ctx.clauses.append("accessor ranges of the anchor files: loops handing operation indices / chambers to D-set accessors still end inclusively at dim() / size() where the reference did (T12, %d sites)" % n2)
     except core.AnchorMissing as e:
         ctx.ob("anchor", str(e), "missing", "violation",
@@ -40,6 +42,43 @@ def evaluate(prop, facts, tier):
 
 
 _ANCHOR_FILES = {}
+_MECH = {}
+
+
+def relevant_functions(prop, facts):
+    """functions the generic, table-driven rules (T10-T13) are applied to under this property: those whose body overlaps one of the
+    property's mechanism ranges (properties.jsonl, +-6 lines for the drift caused by the fix: commits) and everything they can reach in
+    the call graph, restricted to the property's anchor files.  A change in a function that the property's mechanism cannot reach is not
+    this property's business even if it sits in one of its anchor files."""
+    import re
+    if not _MECH:
+        for l in open(os.path.join(VERIF, "properties.jsonl")):
+            p = json.loads(l)
+            rs = []
+            for m in p["anchors"].get("mechanism", []):
+                w = m.get("where", "")
+                f = w.split(":")[0]
+                for a, z in re.findall(r"(\d+)-(\d+)", w):
+                    rs.append((f, int(a), int(z)))
+            _MECH[p["id"]] = rs
+    files = anchor_files(prop)
+    from . import structure
+    roots = []
+    for d, b in facts.bodies.items():
+        sp = b.f.get("span", "")
+        m = re.match(r"(?:.*/)?(src/[^:]+):(\d+):\d+-(\d+):", sp)
+        if not m:
+            continue
+        f, lo, hi = m.group(1), int(m.group(2)), int(m.group(3))
+        if any(f == mf and lo <= z + 6 and hi >= a - 6 for mf, a, z in _MECH.get(prop, [])):
+            roots.append(d)
+    out = set()
+    for r in roots:
+        if r in out:
+            continue
+        for d in facts.reachable(r):
+            out.add(d)
+    return {d for d in out if structure.file_of(facts.bodies[d]) in files}
 
 
 def anchor_files(prop):
